@@ -35,7 +35,7 @@ ENTRY = dict(
                    "concrete problem computed entirely inside Coq (h 0; cx 0 1 cut between A|B with the real six-map cx basis of "
                    "Model/Bases.v; uncut values from the exact PTM of cx, partition values from the one-qubit PTM/instrument algebra, "
                    "all 24 subexperiments simulated by the C13 model over the exact state-vector simulator, decoded by the C06 model: "
-                   "<ZZ> = 1, <XX> = 1, <IZ> = 0). END TO END on the implementation (about 160 requests per quick run: both call "
+                   "<ZZ> = 1, <XX> = 1, <IZ> = 0). END TO END on the implementation (about 230 requests per quick run, 64 of them in eight targeted streams: both call "
                    "forms, 1..4 partitions, exotic/automatic labels, idle qubits, 0..3 cuts, every gate family): the structure the "
                    "implementation produced is checked in Coq against the structural hypotheses of the theorem (sample list = support "
                    "above the cut-off, coefficient = product within 1e-12*kappa, #circuits = #samples x #groups, projections "
@@ -66,5 +66,17 @@ ENTRY = dict(
             "end-to-end oracle: own numpy state-vector simulator over Operator(gate).data matrices of the ORIGINAL gates, barriers "
             "ignored; ExactSampler (property C13) evaluates the subexperiments",
             "outside the domain: label None on a used qubit, circuits with classical bits, observables with phases",
+            "OBSERVATION (not flagged, outside the quantifier 'circuits built from ... gates'): a circuit without any operation, "
+            "e.g. partition_problem(QuantumCircuit(2), None, PauliList(['II'])) -> generate_cutting_experiments -> "
+            "reconstruct_expectation_values, raises IndexError (no partition is left; len(list(observables.values())[0])); the "
+            "model's public reconstruct returns Crashed there as well (c06 model: empty OMap) and c01_roundtrip_public_partial "
+            "requires at least one partition; the harness does not generate such requests and judge treats them as out of domain",
+            "the Coq refusal rule is used one-sidedly, as the property text demands: a refusal is accepted only when an observable "
+            "acts on a discarded qubit; an ANSWER to such a request is accepted when it is the right number (oracle); automatic "
+            "labelling itself (connectivity, barriers) is C10's business: under automatic labels the case literal only distinguishes "
+            "discarded (untouched) qubits from kept ones",
+            "samples of equal weight are matched to the returned coefficients by value inside the tie (tie order is not part of any "
+            "contract); resets in the input circuit are generated (text: 'any circuit without classical bits') and the oracle "
+            "handles them by branch splitting",
         ],
     )
